@@ -129,6 +129,9 @@ pub mod prelude;
 pub mod runtime;
 pub mod time;
 
+#[cfg(petrichorit_des_verif)]
+pub mod verif;
+
 cfg_net! {
     pub mod net;
     pub mod tracing;
